@@ -506,6 +506,106 @@ fn run_case(case: &Case, ctx: &mut CaseCtx) -> Result<(), Fail> {
     Ok(())
 }
 
+// ------------------------------------------------------------------ slow: restored transactions after their timeout
+
+/// What is called on the restarted coordinator once the 5 s timeout of its restored transactions
+/// has passed.
+#[derive(Clone, Debug, Serialize, Deserialize)]
+enum Late {
+    RecoverPass,
+    Sweep,
+    ClientAbort,
+}
+
+#[derive(Clone, Debug, Serialize, Deserialize)]
+struct SlowCase {
+    shards: u8,
+    /// cut inside the TxComplete record that commit() wrote (fraction of its bytes; 0 = the record is missing entirely)
+    cut: u16,
+    /// recover() right after the restart as well
+    early_pass: bool,
+    late: Vec<Late>,
+}
+
+fn slow_strategy(_t: Tier) -> impl Strategy<Value = SlowCase> {
+    let late = prop_oneof![3 => Just(Late::RecoverPass), 2 => Just(Late::Sweep), 1 => Just(Late::ClientAbort)];
+    (1u8..=3, any::<u16>(), any::<bool>(), prop::collection::vec(late, 1..4)).prop_map(|(shards, cut, early_pass, late)| SlowCase { shards, cut, early_pass, late })
+}
+
+/// A restored transaction gets a fresh 5 s timeout that no configuration shortens, so this part
+/// really waits 5.2 s per case (few cases, all in parallel). A transaction whose move to Committing
+/// is in the log (the crash fell inside the TxComplete record) must still be Committing, and
+/// completable as committed, after any mix of recovery passes, timeout sweeps and client aborts
+/// that run after the timeout has passed.
+fn slow_check(c: &SlowCase, ctx: &mut CaseCtx) -> Result<(), Fail> {
+    let dir = nv_engine::scratch::Dir::new("c13slow");
+    let wal = dir.join("tx.wal");
+    let id = {
+        let coord = open_coord(&wal).map_err(|e| Fail::new("harness", e))?;
+        let parts: Vec<usize> = (0..c.shards as usize).collect();
+        let tx = coord.begin(&"coord".to_string(), &parts).map_err(|e| Fail::new("harness", e.to_string()))?;
+        for (k, sh) in parts.iter().enumerate() {
+            coord
+                .record_vote(tx.tx_id, *sh, PrepareVote::Yes { lock_handle: 10 + k as u64, delta: DeltaVector::zero(0) })
+                .map_err(|e| Fail::new("harness", format!("{e:?}")))?;
+        }
+        coord.commit(tx.tx_id).map_err(|e| Fail::new("harness", e.to_string()))?;
+        tx.tx_id
+    };
+    // cut inside the last record (TxComplete): everything up to and including PhaseChange -> Committing stays
+    let bytes = std::fs::read(&wal).map_err(|e| Fail::new("harness", e.to_string()))?;
+    let frames = walframe::frames(&bytes);
+    // the TxComplete record (lock-release records follow it)
+    let last = frames
+        .iter()
+        .find(|f| matches!(bitcode::deserialize::<TxWalEntry>(&bytes[f.start + 8..f.end]), Ok(TxWalEntry::TxComplete { .. })))
+        .ok_or_else(|| Fail::new("harness", "no TxComplete record in the log commit() wrote"))?;
+    let keep = last.start + pick(c.cut, last.end - last.start);
+    std::fs::write(&wal, &bytes[..keep]).map_err(|e| Fail::new("harness", e.to_string()))?;
+    ctx.label(if keep == last.start { "crash between the Committing record and TxComplete" } else { "crash inside the TxComplete record" });
+
+    let coord = open_coord(&wal).map_err(|e| Fail::new("harness", e))?;
+    coord.recover_from_wal().map_err(|e| Fail::new("slow:recovery-failed", e.to_string()))?;
+    match coord.get(id).map(|t| t.phase) {
+        Some(TxPhase::Committing) => {},
+        other => return Err(Fail::new("harness", format!("expected the transaction back in phase Committing, got {other:?}"))),
+    }
+    if c.early_pass {
+        let _ = coord.recover();
+    }
+    std::thread::sleep(std::time::Duration::from_millis(5_200));
+    ctx.set_nontrivial();
+    for l in &c.late {
+        match l {
+            Late::RecoverPass => {
+                let _ = coord.recover();
+                ctx.label("recover() after the restored transaction's timeout");
+            },
+            Late::Sweep => {
+                let _ = coord.cleanup_timeouts();
+                let _ = coord.take_pending_aborts();
+                ctx.label("timeout sweep after the restored transaction's timeout");
+            },
+            Late::ClientAbort => {
+                let _ = coord.abort(id, "late client abort");
+                ctx.label("client abort after the restored transaction's timeout");
+            },
+        }
+        let phase = coord.get(id).map(|t| t.phase);
+        if phase != Some(TxPhase::Committing) {
+            ctx.fail(
+                "slow:committing-tx-timed-out",
+                format!("transaction {id} was logged in phase Committing (the commit decision); 5.2 s after the restart {l:?} left it in {phase:?}"),
+            )?;
+            return Ok(());
+        }
+    }
+    if let Err(e) = coord.complete_commit(id) {
+        ctx.fail("slow:cannot-complete", format!("transaction {id} (Committing) cannot be completed as committed after {:?}: {e}", c.late))?;
+    }
+    Ok(())
+}
+
 fn main() {
     main_for(PropDef {
         id: "C13",
@@ -515,9 +615,13 @@ fn main() {
             "a crash loses everything after a byte position of the append-only log and nothing before it (omitted fsync is invisible)",
             "the reference classification uses the harness's own frame reader; record payloads are decoded with the product's bitcode schema (codec only, no recovery logic)",
             "a vote counts as logged-and-accepted only if record_vote returned Ok for it (record_vote logs before validating)",
-            "timeouts are set to 1 h so that wall clock never decides; the fixed 5 s timeout of restored transactions is never awaited",
+            "crash part: timeouts are set to 1 h so that wall clock never decides; the fixed 5 s timeout of restored transactions is awaited only in the `slow` part (16 cases of 5.2 s, judged only after the sleep, so a slow machine cannot fail it)",
         ],
-        parts: vec![PropPart::new("crash", 60_000, 4_000_000, case_strategy, run_case).boxed()],
+        parts: vec![
+            PropPart::new("crash", 60_000, 4_000_000, case_strategy, run_case).boxed(),
+            // each case waits 5.2 s: one per worker thread in the quick tier
+            PropPart::new("slow", 16, 160, slow_strategy, slow_check).shrink_iters(2).boxed(),
+        ],
         children: vec![],
     });
 }
